@@ -434,7 +434,10 @@ Proof.
         { intros n Hn. destruct (all_ok_map_in _ _ _ _ Ea Hn) as [kid [Hkid Hp]].
           rewrite Forall_forall in IH. eapply IH; eassumption. }
         destruct (agg_empty f (filter (node_enabled f) ns)) eqn:Ee; intros E; inversion E; subst.
-        * apply good_leaf. intros _. reflexivity.
+        * apply (good_filtered f ns (fun ks => ONode KAgg (set_enabled i s_false) (r_crit b) ks)).
+          -- intros ks. left. exists KAgg, (set_enabled i s_false), (r_crit b). reflexivity.
+          -- exact Hns.
+          -- cbn. intros _. reflexivity.
         * apply (good_filtered f ns (fun ks => ONode KAgg i (r_crit b) ks)).
           -- intros ks. left. exists KAgg, i, (r_crit b). reflexivity.
           -- exact Hns.
@@ -496,7 +499,7 @@ Lemma agg_children f b kids c loc s i t :
   exists ns, Forall2 (fun kid n => proc f kid (child_ctx c i) [] = Ok n) kids ns /\
              (t = ONode KAgg i (r_crit b) (filter (node_enabled f) ns) \/
               (agg_empty f (filter (node_enabled f) ns) = true /\
-               t = ONode KAgg (set_enabled i s_false) (r_crit b) [])).
+               t = ONode KAgg (set_enabled i s_false) (r_crit b) (filter (node_enabled f) ns))).
 Proof.
   intros Ev Ht Hs. rewrite proc_none. unfold own. rewrite Ev, Ht, Hs. unfold join_agg.
   destruct (all_ok (map (fun kid => proc f kid (child_ctx c i) []) kids)) as [ns|] eqn:Ea;
@@ -516,16 +519,6 @@ Proof.
     destruct ks as [|x ks]; [discriminate|]. cbn in Hall. apply andb_true_iff in Hall.
     destruct Hall as [Hx _]. inversion IH as [|? ? IHx _]; subst.
     cbn. intros C. apply app_eq_nil in C. destruct C as [C _]. exact (IHx Hx C).
-Qed.
-
-Lemma agg_visibly_nonempty r c loc t i crit ks :
-  proc coded r c loc = Ok t -> In (ONode KAgg i crit ks) (desc t) ->
-  forallb containers_nonempty ks = true -> flat_map visible ks <> [].
-Proof.
-  intros E Hn Hc. pose proof (desc_agg_nonempty coded r c loc t i crit ks E Hn) as Hne.
-  cbn in Hne. destruct ks as [|x ks]; [discriminate|].
-  cbn in Hc. apply andb_true_iff in Hc. destruct Hc as [Hx _].
-  cbn. intros C. apply app_eq_nil in C. destruct C as [C _]. exact (visible_nonempty x Hx C).
 Qed.
 
 (* ---------- iterators ---------- *)
@@ -602,19 +595,11 @@ Proof.
   cbn. unfold show in IH. rewrite (IH Ht). reflexivity.
 Qed.
 
-Lemma iterator_literal_kept fs k b kids c loc n :
-  proc coded (Role (Some fs) k b kids) c loc = Ok n ->
-  literal (r_enabled b) = true -> onode_kids n <> [] -> node_enabled coded n = true.
+(* the parent's filter keeps every iterator container (repair of C15-b) *)
+Lemma iterator_kept fs k b kids c loc n :
+  proc coded (Role (Some fs) k b kids) c loc = Ok n -> node_enabled coded n = true.
 Proof.
-  intros E Hl Hk. destruct (iterator_exact _ _ _ _ _ _ _ _ E) as [vals [ns [_ [HF ->]]]].
-  cbn. cbn in Hk. destruct (is_true (show (r_enabled b))) eqn:Ht; [reflexivity|].
-  exfalso. apply Hk. apply filter_none. intros m Hm.
-  assert (Hv : exists v, proc coded (Role None k b kids) c [(f_var fs, v)] = Ok m).
-  { clear -HF Hm. induction HF as [|v m' vals ns Hv HF IH]; [destruct Hm|].
-    destruct Hm as [->|Hm]; [exists v; exact Hv|apply IH; exact Hm]. }
-  destruct Hv as [v Hv]. rewrite proc_none in Hv. unfold own in Hv.
-  rewrite (eval_literal _ _ Hl), Ht in Hv. inversion Hv; subst.
-  destruct k; cbn; try exact Ht; reflexivity.
+  intros E. destruct (iterator_exact _ _ _ _ _ _ _ _ E) as [vals [ns [_ [_ ->]]]]. reflexivity.
 Qed.
 
 (* ---------- template errors ---------- *)
@@ -664,21 +649,22 @@ Proof.
   - intros _. apply TE_range. exact Hr.
 Qed.
 
-Lemma load_fails_iff c r : load c r = Err <-> terr false c [] r.
+Lemma load_fails_iff c r : load c r = Err <-> terr true c [] r.
 Proof.
   split.
   - intros E. apply (fails_terr coded r c [] E).
-  - intros T. apply (terr_fails coded false c [] r T). discriminate.
+  - intros T. apply (terr_fails coded true c [] r T). reflexivity.
 Qed.
 
-Lemma ideal_fails_iff c r : proc ideal r c [] = Err <-> terr true c [] r.
+(* the loader before the repair of C15-a failed exactly on the errors outside `enabled` *)
+Lemma legacy_fails_iff c r : proc legacy r c [] = Err <-> terr false c [] r.
 Proof.
   split.
-  - intros E. apply (fails_terr ideal r c [] E).
-  - intros T. apply (terr_fails ideal true c [] r T). reflexivity.
+  - intros E. apply (fails_terr legacy r c [] E).
+  - intros T. apply (terr_fails legacy false c [] r T). discriminate.
 Qed.
 
-(* ---------- witnesses of the refuted clauses ---------- *)
+(* ---------- witnesses of the clauses that the loader violated before the repairs ---------- *)
 Definition lit (s : str) : texpr := [PLit s].
 Definition base0 (name : str) (en : texpr) : rbase :=
   mkBase (lit name) en [] [] [] [] true.
@@ -709,7 +695,7 @@ Definition wit_empty : role :=
 
 Definition ctx0 : ctx := mkCtx [] [] [].
 
-(* full statements that the faithful model refutes *)
+(* the full statements (refuted by the loader before the repairs of C15-a, C15-b, C15-d) *)
 Definition error_fails_statement : Prop :=
   forall c r, terr true c [] r -> load c r = Err.
 Definition iterator_enabled_statement : Prop :=
@@ -730,52 +716,61 @@ Proof.
   - apply TE_enabled; reflexivity.
 Qed.
 
-Lemma wit_masked_loads : exists t, load ctx0 wit_masked = Ok t /\ length (flat_map visible (onode_kids t)) = 1%nat.
+(* the three witnesses: what the loader did before the repairs, and what it does now *)
+Lemma wit_masked_legacy_loads :
+  exists t, proc legacy wit_masked ctx0 [] = Ok t /\ length (flat_map visible (onode_kids t)) = 1%nat.
 Proof. vm_compute. eexists. split; reflexivity. Qed.
 
-Lemma error_fails_refuted : ~ error_fails_statement.
+Lemma wit_masked_fails : load ctx0 wit_masked = Err.
+Proof. reflexivity. Qed.
+
+Lemma error_fails_holds : error_fails_statement.
+Proof. intros c r T. apply load_fails_iff. exact T. Qed.
+
+Lemma legacy_error_masked :
+  exists c r, terr true c [] r /\ exists t, proc legacy r c [] = Ok t.
 Proof.
-  intros H. pose proof (H ctx0 wit_masked wit_masked_terr) as E.
-  destruct wit_masked_loads as [t [E2 _]]. rewrite E in E2. discriminate.
+  exists ctx0, wit_masked. split; [exact wit_masked_terr|].
+  destruct wit_masked_legacy_loads as [t [E _]]. exists t. exact E.
 Qed.
 
-Lemma iterator_enabled_refuted : ~ iterator_enabled_statement.
-Proof.
-  intros H.
-  assert (W : exists n, proc coded wit_iter ctx_xa [] = Ok n /\ onode_kids n <> [] /\
-                        node_enabled coded n = false).
-  { vm_compute. eexists. split; [reflexivity|]. split; [discriminate|reflexivity]. }
-  destruct W as [n [E1 [E2 E3]]]. unfold wit_iter in E1.
-  rewrite (H _ _ _ _ _ _ E1 E2) in E3. discriminate.
-Qed.
+Lemma iterator_enabled_holds : iterator_enabled_statement.
+Proof. intros c fs k b kids n E _. exact (iterator_kept _ _ _ _ _ _ _ E). Qed.
 
-(* the same witness seen from the root: the element for which `enabled` is true is missing *)
+Lemma legacy_iterator_dropped :
+  exists n, proc legacy wit_iter ctx_xa [] = Ok n /\ onode_kids n <> [] /\
+            node_enabled legacy n = false.
+Proof. vm_compute. eexists. split; [reflexivity|]. split; [discriminate|reflexivity]. Qed.
+
+(* the same witness seen from the root: before the repair the element for which `enabled` is
+   true was missing *)
 Lemma iterator_enabled_witness :
   exists t, load ctx_xa wit_iter_root = Ok t /\
-            length (flat_map visible (onode_kids t)) = 1%nat /\
-            exists t', proc ideal wit_iter_root ctx_xa [] = Ok t' /\
-                       length (flat_map visible (onode_kids t')) = 2%nat.
+            length (flat_map visible (onode_kids t)) = 2%nat /\
+            exists t', proc legacy wit_iter_root ctx_xa [] = Ok t' /\
+                       length (flat_map visible (onode_kids t')) = 1%nat.
 Proof.
   vm_compute. eexists. split; [reflexivity|]. split; [reflexivity|].
   eexists. split; reflexivity.
 Qed.
 
-Lemma no_visibly_empty_refuted : ~ no_visibly_empty_statement.
+(* no aggregator below the root is left without a visible role (repair of C15-d) *)
+Lemma no_visibly_empty_holds : no_visibly_empty_statement.
 Proof.
-  intros H.
-  assert (W : exists t i crit ks, load ctx0 wit_empty = Ok t /\
-                                  In (ONode KAgg i crit ks) (desc t) /\ flat_map visible ks = []).
-  { vm_compute. do 4 eexists. split; [reflexivity|]. split; [right; left; reflexivity|reflexivity]. }
-  destruct W as [t [i [crit [ks [E1 [E2 E3]]]]]]. exact (H _ _ _ _ _ _ E1 E2 E3).
-Qed.
-
-(* the reference loader (flags off) meets the strict reading *)
-Lemma reference_no_visibly_empty r c loc t i crit ks :
-  proc ideal r c loc = Ok t -> In (ONode KAgg i crit ks) (desc t) -> flat_map visible ks <> [].
-Proof.
-  intros E Hn. pose proof (desc_agg_nonempty ideal r c loc t i crit ks E Hn) as Hne.
+  intros c r t i crit ks E Hn. pose proof (desc_agg_nonempty coded r c [] t i crit ks E Hn) as Hne.
   cbn in Hne. intros C. rewrite C in Hne. discriminate.
 Qed.
+
+Lemma legacy_visibly_empty :
+  exists t i crit ks, proc legacy wit_empty ctx0 [] = Ok t /\
+                      In (ONode KAgg i crit ks) (desc t) /\ flat_map visible ks = [].
+Proof.
+  vm_compute. do 4 eexists. split; [reflexivity|]. split; [right; left; reflexivity|reflexivity].
+Qed.
+
+Lemma wit_empty_pruned :
+  exists t, load ctx0 wit_empty = Ok t /\ length (desc t) = 1%nat.
+Proof. vm_compute. eexists. split; reflexivity. Qed.
 
 Lemma coded_no_bare_aggregator r c loc t i crit ks :
   proc coded r c loc = Ok t -> In (ONode KAgg i crit ks) (desc t) -> ks <> [].
@@ -927,16 +922,19 @@ Proof.
         destruct (all_ok (map (fun kid => proc f kid (child_ctx c i) []) kids)) as [ns|] eqn:Ea;
           [|discriminate].
         destruct (own_ok_inv _ _ _ _ _ Eo) as [s [He [Ht Hs]]].
-        destruct (agg_empty f (filter (node_enabled f) ns)) eqn:Ee; intros E Hin; inversion E; subst.
-        * destruct Hin as [C|[]]. discriminate.
-        * destruct Hin as [C|Hin]; [discriminate|].
-          apply (in_nodes_kids _ (filter (node_enabled f) ns) _ KAgg i (r_crit b)) in Hin;
+        assert (Hk : forall i', In (OIter nm en ks) (desc (ONode KAgg i' (r_crit b) (filter (node_enabled f) ns))) ->
+                           container_spec f c loc (Role None KAgg b kids) nm en ks).
+        { intros i' Hin.
+          apply (in_nodes_kids _ (filter (node_enabled f) ns) _ KAgg i' (r_crit b)) in Hin;
             [|left; reflexivity].
           destruct Hin as [x [Hx Hm]]. apply filter_In in Hx. destruct Hx as [Hx _].
           destruct (all_ok_map_in _ _ _ _ Ea Hx) as [kid [Hkid Hp]].
           rewrite Forall_forall in IH.
           eapply container_spec_under; [|eapply IH; eassumption].
           eapply Occ_kid; try eassumption. apply Occ_here. }
+        destruct (agg_empty f (filter (node_enabled f) ns)) eqn:Ee; intros E Hin; inversion E; subst.
+        * destruct Hin as [C|Hin]; [discriminate|]. exact (Hk _ Hin).
+        * destruct Hin as [C|Hin]; [discriminate|]. exact (Hk _ Hin). }
   intros c loc t nm en ks. destruct fo as [fs|]; [|apply Hbody].
   intros E Hin. destruct (iterator_exact _ _ _ _ _ _ _ _ E) as [vals [ns [Hr [HF ->]]]].
   destruct Hin as [C|Hin].
@@ -1058,8 +1056,8 @@ Proof. repeat split; reflexivity. Qed.
 
 (* under every schedule a live template error (other than in `enabled`) fails the load *)
 Lemma error_fails_every_schedule c r s o :
-  terr false c [] r -> run coded s (WTodo c [] r) = WDone o -> o = Err.
+  terr true c [] r -> run coded s (WTodo c [] r) = WDone o -> o = Err.
 Proof.
   intros T E. rewrite (schedule_independent coded c [] r s o E).
-  apply (terr_fails coded false c [] r T). discriminate.
+  apply (terr_fails coded true c [] r T). reflexivity.
 Qed.
